@@ -309,6 +309,8 @@ pub fn text(c: &Case) -> String {
         "typeref" => format!("{}\nTy1 ::= {}\nTy2 ::= Ty1\nval Ty2 ::= {}", c.prelude, c.ty, c.value),
         "valref" => format!("{}\nbase {} ::= {}\nval {} ::= base", c.prelude, c.ty, c.value, c.ty),
         "default" => format!("{}\nHolder ::= SEQUENCE {{ f {} DEFAULT {} }}", c.prelude, c.ty, c.value),
+        // DEFAULT of a component of the (anonymous) element type of a SEQUENCE OF
+        "default-of-element" => format!("{}\nHolder ::= SEQUENCE OF SEQUENCE {{ f {} DEFAULT {} }}", c.prelude, c.ty, c.value),
         // DEFAULT of a component whose type is written inline (composite-value family, inline mode)
         "default-inline" => {
             let (defs, top) = c.prelude.rsplit_once("Top ::= ").unwrap_or(("", "NULL"));
@@ -896,10 +898,17 @@ fn wire_batch(cases: &[Case]) -> Result<(), String> {
             };
             // how the value is reached from the test function
             let expr = if c.route.starts_with("default") {
-                if find_fn_body(&file, "holder_f_default").is_none() {
-                    return (h, None);
+                if c.route == "default-of-element" {
+                    if find_fn_body(&file, "anonymous_holder_f_default").is_none() {
+                        return (h, None);
+                    }
+                    "&m::AnonymousHolder::default().f".to_string()
+                } else {
+                    if find_fn_body(&file, "holder_f_default").is_none() {
+                        return (h, None);
+                    }
+                    "&m::Holder::default().f".to_string()
                 }
-                "&m::Holder::default().f".to_string()
             } else {
                 let mut e = None;
                 for it in items_of(&file) {
@@ -960,7 +969,7 @@ impl Prop for C07 {
         "C07"
     }
     fn rule(&self) -> String {
-        "(symbolic level + wire level: every value on the direct route and one representative per notation x feature on the other routes (thorough: all) is compiled into the wirecheck workspace, the generated constant / Holder default is encoded by rasn's DER codec and the bytes are compared with the X.690 encoding of the source value computed by a 100-line reference encoder) per value notation, complete inside: integers = the 53-point boundary set ∪ {±2^127 ends} (typed INTEGER, a fitting constrained INTEGER, a named-number type); TRUE/FALSE; NULL; cstrings = all strings of length <=2 over {a, space, \"\" (escaped quote), é, €} restricted to each of the 11 string types' alphabets plus a 40-character string; bstrings = all of length 0..8 (BIT STRING) and all byte-multiples (OCTET STRING); hstrings = all of 0..2 digits, every digit at every position of a 4-digit string, the 64 walking-one patterns; named-bit lists = all 32 subsets of {b0,b1,b3,b7,b15}; named numbers, enumerals; UTCTime / GeneralizedTime values in every form of the notation (with / without seconds, fractions with . and , , Z / offset / local, leap day) judged by an independent reading of both the ASN.1 and the RFC 3339 notation as instants and by the DER canonical form on the wire; OIDs of 2..4 arcs with every arc form (number, every X.660 well-known name under its root, name(number), leading value reference); CHOICE / SEQUENCE / SEQUENCE OF values to depth 2 (hand-picked, incl. one-member SEQUENCE values that read like OBJECT IDENTIFIER values) and systematically: every type tree of depth <= 2 over {INTEGER, BOOLEAN, NULL} with constructors SEQUENCE of 1..2 members (each required or OPTIONAL), CHOICE of 2 alternatives, SEQUENCE OF (depth 2 over the leaves and 8 depth-1 representatives; 1.3 k trees, thorough 2.4 k), nested types once as type assignments of their own and once inline, × every value with one component varied at a time (each alternative, OPTIONAL present / absent, lists of length 0..2), judged by a reference DER encoder that is generic in the type tree; values the compiler declines with a warning are counted as skipped by warning class; each × route {value assignment, through two type references, via a value reference, DEFAULT, DEFAULT via value reference, between lexical neighbours; trees written inline also as DEFAULT of a component of that inline type}. Oracle: a symbolic evaluator of the expression forms the templates emit reduces the initialiser (const, LazyLock static, default fn body) to an abstract value compared with the model's (bit strings from named bits modulo trailing zeros). Non-trivial: compiled cleanly and the initialiser was evaluated.".into()
+        "(symbolic level + wire level: every value on the direct route and one representative per notation x feature on the other routes (thorough: all) is compiled into the wirecheck workspace, the generated constant / Holder default is encoded by rasn's DER codec and the bytes are compared with the X.690 encoding of the source value computed by a 100-line reference encoder) per value notation, complete inside: integers = the 53-point boundary set ∪ {±2^127 ends} (typed INTEGER, a fitting constrained INTEGER, a named-number type); TRUE/FALSE; NULL; cstrings = all strings of length <=2 over {a, space, \"\" (escaped quote), é, €} restricted to each of the 11 string types' alphabets plus a 40-character string; bstrings = all of length 0..8 (BIT STRING) and all byte-multiples (OCTET STRING); hstrings = all of 0..2 digits, every digit at every position of a 4-digit string, the 64 walking-one patterns; named-bit lists = all 32 subsets of {b0,b1,b3,b7,b15}; named numbers, enumerals; UTCTime / GeneralizedTime values in every form of the notation (with / without seconds, fractions with . and , , Z / offset / local, leap day) judged by an independent reading of both the ASN.1 and the RFC 3339 notation as instants and by the DER canonical form on the wire; OIDs of 2..4 arcs with every arc form (number, every X.660 well-known name under its root, name(number), leading value reference); CHOICE / SEQUENCE / SEQUENCE OF values to depth 2 (hand-picked, incl. one-member SEQUENCE values that read like OBJECT IDENTIFIER values) and systematically: every type tree of depth <= 2 over {INTEGER, BOOLEAN, NULL} with constructors SEQUENCE of 1..2 members (each required or OPTIONAL), CHOICE of 2 alternatives, SEQUENCE OF (depth 2 over the leaves and 8 depth-1 representatives; 1.3 k trees, thorough 2.4 k), nested types once as type assignments of their own and once inline, × every value with one component varied at a time (each alternative, OPTIONAL present / absent, lists of length 0..2), judged by a reference DER encoder that is generic in the type tree; values the compiler declines with a warning are counted as skipped by warning class; each × route {value assignment, through two type references, via a value reference, DEFAULT, DEFAULT via value reference, between lexical neighbours, DEFAULT of a component of the element type of a SEQUENCE OF; trees written inline also as DEFAULT of a component of that inline type}. Oracle: a symbolic evaluator of the expression forms the templates emit reduces the initialiser (const, LazyLock static, default fn body) to an abstract value compared with the model's (bit strings from named bits modulo trailing zeros). Non-trivial: compiled cleanly and the initialiser was evaluated.".into()
     }
     fn selftest(&self) -> Result<u64, String> {
         let f: syn::File = syn::parse_str("pub mod m { pub const A: u8 = 5; pub static O1: LazyLock<ObjectIdentifier> = LazyLock::new(|| Oid::const_new(&[1u32, 2u32]).to_owned()); pub static O3: LazyLock<ObjectIdentifier> = LazyLock::new(|| Oid::new(&[&***O1, &[7u32]].concat()).unwrap().to_owned()); pub static B: LazyLock<BitString> = LazyLock::new(|| [true, false].into_iter().collect()); pub static X: LazyLock<OctetString> = LazyLock::new(|| <OctetString as From<&'static [u8]>>::from(&[175, 9])); pub const C3: C = C::c(C2::z(())); pub static I: LazyLock<T2> = LazyLock::new(|| T2(T1(Integer::from(-2i128)))); }").map_err(|e| e.to_string())?;
@@ -1230,7 +1239,7 @@ pub fn cases(tier: Tier) -> Vec<Case> {
         for c in &base {
             out.push(c.clone());
             let heavy = c.notation.starts_with("bstring") || c.notation.starts_with("hstring") || c.notation.starts_with("cstring") || c.notation == "oid" || c.notation == "int";
-            let routes: Vec<&str> = if c.vt.is_some() && c.feature.ends_with("inline-types") { vec!["typeref", "valref", "default", "default-valref", "neighbours", "default-inline"] } else { vec!["typeref", "valref", "default", "default-valref", "neighbours"] };
+            let routes: Vec<&str> = if c.vt.is_some() && c.feature.ends_with("inline-types") { vec!["typeref", "valref", "default", "default-valref", "neighbours", "default-inline"] } else if c.vt.is_some() { vec!["typeref", "valref", "default", "default-valref", "neighbours"] } else { vec!["typeref", "valref", "default", "default-valref", "neighbours", "default-of-element"] };
             for r in routes {
                 // every route for every notation; for the big literal families the non-direct routes use a slice in quick
                 if false && heavy && !tier.thorough() {
@@ -1282,7 +1291,7 @@ fn check_case(c: &Case) -> CaseResult {
             Ok(f) => f,
             Err(e) => return CaseResult { discs: vec![Disc::new(format!("{kb}|kind=unparsable"), format!("{e}\n{src}\n{gen}"))], nontrivial: false, outcome: "unparsable".into(), skipped: None },
         };
-        let expr = if c.route.starts_with("default") { find_fn_body(&file, "holder_f_default") } else { find_value_expr(&file, "VAL") };
+        let expr = if c.route == "default-of-element" { find_fn_body(&file, "anonymous_holder_f_default") } else if c.route.starts_with("default") { find_fn_body(&file, "holder_f_default") } else { find_value_expr(&file, "VAL") };
         let expr = match expr {
             Some(e) => e,
             None => return CaseResult { discs: vec![Disc::new(format!("{kb}|kind=missing"), format!("no constant / default function generated for the value\n{src}\n{gen}"))], nontrivial: false, outcome: "missing".into(), skipped: None },
